@@ -103,6 +103,18 @@ class Frame:
 
 PURE_METHODS = {"get", "items", "keys", "values", "copy", "count", "value", "is_solution_valid", "index"}
 
+# QVC_PATIENT=1: second attempt of an instance whose obligations were left open (never refuted) - the same queries
+# with four times the budgets, run alone on the machine (driver.run_property); a verdict never gets worse by it
+class _Patient:
+    """multiplier of every solver budget; read from the environment at use (worker processes are forked)"""
+
+    def __rmul__(self, other):
+        return other * (4 if os.environ.get("QVC_PATIENT") else 1)
+
+    __mul__ = __rmul__
+
+
+PATIENT = _Patient()
 RLIMIT = 3_000_000
 
 
@@ -130,8 +142,8 @@ class Engine:
     # ------------------------------------------------------------------ path machinery
     def reset_path(self, prefix):
         self.solver = z3.Solver()
-        self.solver.set("rlimit", RLIMIT)
-        self.solver.set("timeout", 20000)      # wall-clock safety net only; the resource limit decides
+        self.solver.set("rlimit", RLIMIT * PATIENT)
+        self.solver.set("timeout", 20000 * PATIENT)      # wall-clock safety net only; the resource limit decides
         self.facts = T.Facts()
         self._nfacts_pushed = 0
         self._aids, self._aterms, self._akey = [], [], b""
@@ -251,7 +263,7 @@ class Engine:
                 self.solver.push()
                 for e in extra:
                     self.solver.add(e)
-                self.solver.set("timeout", 1500)
+                self.solver.set("timeout", 1500 * PATIENT)
                 r0 = self.solver.check()
                 m0 = None
                 if r0 == z3.sat:
@@ -259,7 +271,7 @@ class Engine:
                         m0 = self.solver.model()
                     except z3.Z3Exception:
                         m0 = None
-                self.solver.set("timeout", 20000)
+                self.solver.set("timeout", 20000 * PATIENT)
                 self.solver.pop()
                 if r0 == z3.unsat or (r0 == z3.sat and self._model_ok(m0, extra)):
                     self.last_backend = "z3-" + z3.get_version_string()
@@ -268,8 +280,8 @@ class Engine:
                     return r0, m0
                 fs = _arith_abstraction(list(self.solver.assertions()) + list(extra))
                 sa = z3.Solver()
-                sa.set("timeout", 15000)
-                sa.set("rlimit", 20000000)
+                sa.set("timeout", 15000 * PATIENT)
+                sa.set("rlimit", 20000000 * PATIENT)
                 for f_ in fs:
                     sa.add(f_)
                 if sa.check() == z3.unsat:
@@ -319,10 +331,10 @@ class Engine:
         if quick:
             # feasibility / canary queries under quantified hypotheses: a model may be out of the solver's reach;
             # `unknown` is read as "feasible" by every caller, so a short budget loses nothing but time
-            self.solver.set("timeout", 800)
+            self.solver.set("timeout", 800 * PATIENT)
         r = self.solver.check()
         if quick:
-            self.solver.set("timeout", 20000)
+            self.solver.set("timeout", 20000 * PATIENT)
         if os.environ.get("QVC_DUMP_DIR"):
             print("incremental", "portfolio" if portfolio else "plain", r, round(time.time() - t0, 2))
         model = None
@@ -399,12 +411,12 @@ class Engine:
         import shutil
         z3new = shutil.which("z3-new") or "/usr/bin/z3"
         # resource limits (deterministic) decide; the wall-clock limits are only a safety net
-        for name, cmd in (("z3-5.1-cli(one-shot)", [z3new, "rlimit=25000000", "-T:90"]),):
+        for name, cmd in (("z3-5.1-cli(one-shot)", [z3new, "rlimit=%d" % (25000000 * PATIENT), "-T:%d" % (90 * PATIENT)]),):
             try:
                 with tempfile.NamedTemporaryFile("w", suffix=".smt2", delete=True) as f:
                     f.write(text)
                     f.flush()
-                    out = subprocess.run(cmd + [f.name], capture_output=True, text=True, timeout=100).stdout.strip().split("\n")[0]
+                    out = subprocess.run(cmd + [f.name], capture_output=True, text=True, timeout=100 * PATIENT).stdout.strip().split("\n")[0]
             except Exception:
                 continue
             if out == "unsat":
